@@ -6,6 +6,7 @@ import (
 	"fmt"
 	"go/token"
 	"go/types"
+	"path/filepath"
 
 	"golang.org/x/tools/go/ssa"
 )
@@ -395,4 +396,46 @@ func (s *scheduler) timerSend(c *gochan, v value) {
 	if len(c.buf) < c.cap {
 		c.buf = append(c.buf, v)
 	}
+}
+
+func init() {
+	register("github.com/alitto/pond/v2.NewPool", func(fr *frame, a []value) value {
+		pkg := fr.i.prog.ImportedPackage("grog/internal/zzverif/models")
+		if pkg == nil {
+			panic(unsupported("pond.NewPool: support package models not loaded"))
+		}
+		return call(fr.i, fr, token.NoPos, pkg.Func("NewGoPool"), nil)
+	})
+	register("grog/internal/worker.NewProgressTracker", func(fr *frame, a []value) value { return (*value)(nil) })
+	register("grog/internal/output/handlers.NewDockerOutputHandler", func(fr *frame, a []value) value { return (*value)(nil) })
+	register("grog/internal/output/handlers.NewDockerRegistryOutputHandler", func(fr *frame, a []value) value { return (*value)(nil) })
+	register("grog/internal/config.GetWorkspaceCachePrefix", func(fr *frame, a []value) value {
+		d := cstr(a[0])
+		return "0123456789abcdef-" + filepath.Base(d)
+	})
+	// the shell is environment: the harness package provides the command model
+	register("grog/internal/execution.runTargetCommand", func(fr *frame, a []value) value {
+		pkg := fr.i.prog.ImportedPackage("grog/internal/execution")
+		fn := pkg.Func("verifRunCommand")
+		if fn == nil {
+			panic(unsupported("runTargetCommand: harness does not define verifRunCommand"))
+		}
+		return call(fr.i, fr, token.NoPos, fn, []value{a[0], a[1], a[4]})
+	})
+	register(symPkg+"Quiesce", func(fr *frame, a []value) value {
+		s := fr.sched()
+		g := fr.g
+		s.block(g, "sym.Quiesce", func() bool {
+			for _, o := range s.gs {
+				if o == g {
+					continue
+				}
+				if o.state == gRunnable || (o.state == gBlocked && o.ready()) {
+					return false
+				}
+			}
+			return true
+		})
+		return nil
+	})
 }
